@@ -18,6 +18,7 @@ from ..core import close
 
 THEOREMS = ["delivered_sub_drawn", "balance", "balance_bus", "busOf_eq", "bus_is_connectivity_class", "no_load",
             "no_capacity_imbalance"]
+THEOREMS += ["d158_mode_one_balances", "d158_fractional_mode_gap"]      # known finding D158 exhibited on the model
 DEPENDS_ON_MODULES = ["FeemsProofs.C02", "FeemsProofs.Lemmas.ElectricLemmas"]
 BAL = E.STORAGE_KINDS + ("pti_pto",)
 
